@@ -21,9 +21,16 @@ PROPERTY = {
             "read_value": "[value]: -1 Null, -2 Unset, n>=0 exactly n bytes, n<-2 Err",
             "RawValue::as_value": "Some for Value, None for Null/Unset",
         }),
+        Unit("c08_error_frame", "C08", "c08_error_frame.vrs", desc={
+            "Error::deserialize": "ERROR body: never past the end; Ok => the DbError variant is the one the protocol's error code denotes (all 18 codes + negotiated rate-limit code + Other)",
+            "Consistency::try_from": "[consistency] code table per protocol; unknown code => Err",
+            "read_consistency": "2 bytes BE -> Consistency per table",
+            "OperationType::from": "0 Read, 1 Write, else Other",
+        }),
     ],
     "timeout": 900,
     "kani": [
+        Harness("c08_write_type_from", "C08.error_frame.write_type_table", "PROVED-C", "WriteType::from: the 8 protocol strings map to their variants (the leaf the Verus unit assumes)", crate="scylla-cql-core", functions=["scylla-cql-core/src/frame/response/error.rs:<WriteType as From<&str>>::from"]),
         Harness("c08_body_extensions_tracing", "C08.body_extensions.tracing", "BOUNDED", "parse_response_body_extensions with/without TRACING on every body of 0..=18 bytes: Ok iff the 16-byte trace id is there; trace id / rest exact; never a panic", bound="body <= 18 bytes", crate="scylla-cql", functions=["scylla-cql/src/frame/mod.rs:parse_response_body_extensions", "scylla-cql/src/frame/types.rs:read_uuid"]),
         Harness("c08_body_extensions_compression_not_negotiated", "C08.body_extensions.compression_flag", "BOUNDED", "COMPRESSION flag without negotiated compression => Err for any body", bound="body <= 4 bytes", crate="scylla-cql", functions=["scylla-cql/src/frame/mod.rs:parse_response_body_extensions"]),
         Harness("c08_twin_read_value", "C08.twin.read_value", "BOUNDED", "read_value on every input of <= 8 bytes: exact result, never past the end", bound="input <= 8 bytes", crate="scylla-cql-core", twin=True, functions=[F + "read_value"]),
